@@ -19,6 +19,7 @@ stamped with the global event sequence number returned by ``ctx.log.add``:
   ("enter", label, tag)   the request ``tag`` starts dispatching against session ``label`` (method entry with
                           ``ctx.session`` bound, or a successful open inside the method)
   ("exit", label, tag)    it stops doing so (method end, or immediately before its own ``ctx.close_session()``)
+  ("own-close-done", label, tag)  its own ``ctx.close_session()`` has returned (or raised)
   ("close-start", label, closer) / ("close-end", label, closer)   the state's close hook; ``closer`` is derived from
                           the _sticky.py frames on the stack (``sys._getframe``)
   ("method", tag)         the method body was entered at all
@@ -154,11 +155,17 @@ class StickyImpl:
                     w.ev("enter", st.label, tag, "open", w.thread_name())
                     obs.append(["opened", st.label, ctx.session_id])
                 elif op == "c":
+                    closing = bound.label if bound is not None else None
                     if bound is not None:
                         # the request's own close ends its dispatch against that session
                         w.ev("exit", bound.label, tag, "own-close", w.thread_name())
                         bound = None
-                    ctx.close_session()
+                    try:
+                        ctx.close_session()
+                    finally:
+                        if closing is not None:
+                            # until here the request is still inside close_session(): nobody else may start on the session
+                            w.ev("own-close-done", closing, tag, w.thread_name())
                     obs.append(["closed"])
                 elif op == "r":
                     s = ctx.session
